@@ -2203,7 +2203,7 @@ func extractCensusC06(repo, gendir string) {
 		if r := recover(); r != nil {
 			msg := strings.NewReplacer("\"", "'", "\\", "/", "\n", " ").Replace(fmt.Sprint(r))
 			stub := "/- GENERATED by `harness extract`: the census FAILED -/\nnamespace Knut.Generated.Census\nabbrev Site := String × String × String × String × String\n" +
-				"def files : List (String × Nat) := [(\"census extraction failed: " + msg + "\", 0)]\ndef concFiles : List (String × Nat) := files\ndef classD : List Site := []\ndef translated : List (String × String) := []\nend Knut.Generated.Census\n"
+				"def files : List (String × Nat) := [(\"census extraction failed: " + msg + "\", 0)]\ndef concFiles : List (String × Nat) := files\ndef all : List Site := []\ndef concAll : List Site := []\ndef classD : List Site := []\ndef translated : List (String × String) := []\nend Knut.Generated.Census\n"
 			_ = os.WriteFile(filepath.Join(gendir, "Census.lean"), []byte(stub), 0o644)
 			fmt.Printf("census-new-site C06 (census extraction failed): %s\n", msg)
 			fmt.Printf("census-new-site C06Conc (census extraction failed): %s\n", msg)
@@ -2249,6 +2249,18 @@ func extractCensusC06(repo, gendir string) {
 		}
 		b.WriteString("/-- every file with at least one such site, with the number of its sites -/\n")
 		c06WriteList(&b, "def "+filesName+" : List (String × Nat)", counts)
+		allName := map[string]string{"C06": "all", "C06Conc": "concAll"}[mod]
+		b.WriteString("/-- all these sites -/\ndef " + allName + " : List Site :=\n  ")
+		for i, f := range files {
+			if i > 0 {
+				b.WriteString(" ++ ")
+			}
+			b.WriteString(prefix + c06LeanName(f))
+		}
+		if len(files) == 0 {
+			b.WriteString("[]")
+		}
+		b.WriteString("\n\n")
 	}
 	var tr []string
 	for k := range c.translated {
